@@ -77,21 +77,28 @@ func (u *c17UI) IsTerminal() bool                             { return false }
 func (u *c17UI) WantBrowser() bool                            { return false }
 func (u *c17UI) SetAutoComplete(complete func(string) string) {}
 
-// c17Web returns the JSON text embedded in the /flamegraph page, or a short error word + detail.
-func c17Web(c *Ctx, p *profile.Profile, cs c17Case) (js []byte, werr string) {
+func (rq c17Req) query() string {
 	q := url.Values{}
-	q.Set("si", strconv.Itoa(cs.SampleIndex))
-	if cs.Gran != "" {
-		q.Set("g", cs.Gran)
+	q.Set("si", strconv.Itoa(rq.SampleIndex))
+	if rq.Gran != "" {
+		q.Set("g", rq.Gran)
 	}
-	if cs.NoInlines {
+	if rq.NoInlines {
 		q.Set("noinlines", "true")
 	}
-	if cs.ShowColumns {
+	if rq.ShowColumns {
 		q.Set("showcolumns", "true")
 	}
-	var page []byte
-	status := 0
+	for k, v := range rq.Filters {
+		q.Set(k, v)
+	}
+	return q.Encode()
+}
+
+// c17WebSession starts ONE web UI (driver.PProf -http with the HTTPServer hook) and issues the
+// requests in order on its /flamegraph handler; it returns the JSON text embedded in each page,
+// or a short error word + detail.
+func c17WebSession(p *profile.Profile, reqs []c17Req) (out [][]byte, werr string) {
 	hooked := false
 	ui := &c17UI{}
 	server := func(a *plugin.HTTPServerArgs) error {
@@ -100,11 +107,26 @@ func c17Web(c *Ctx, p *profile.Profile, cs c17Case) (js []byte, werr string) {
 		if h == nil {
 			return fmt.Errorf("no /flamegraph handler")
 		}
-		rec := httptest.NewRecorder()
-		req := httptest.NewRequest(http.MethodGet, "http://localhost:1234/flamegraph?"+q.Encode(), nil)
-		h.ServeHTTP(rec, req)
-		status = rec.Code
-		page = rec.Body.Bytes()
+		for n, rq := range reqs {
+			rec := httptest.NewRecorder()
+			req := httptest.NewRequest(http.MethodGet, "http://localhost:1234/flamegraph?"+rq.query(), nil)
+			h.ServeHTTP(rec, req)
+			page := rec.Body.Bytes()
+			if rec.Code != http.StatusOK {
+				return fmt.Errorf("status %d at request %d: %s", rec.Code, n, c17Trunc(string(page)))
+			}
+			marker := []byte("stackViewer(")
+			i := bytes.LastIndex(page, marker)
+			if i < 0 {
+				return fmt.Errorf("nomarker page %d has no stackViewer( call", n)
+			}
+			dec := json.NewDecoder(bytes.NewReader(page[i+len(marker):]))
+			var raw json.RawMessage
+			if err := dec.Decode(&raw); err != nil {
+				return fmt.Errorf("badjson %v", err)
+			}
+			out = append(out, raw)
+		}
 		return nil
 	}
 	var err error
@@ -125,22 +147,12 @@ func c17Web(c *Ctx, p *profile.Profile, cs c17Case) (js []byte, werr string) {
 	switch {
 	case pn != "":
 		return nil, "panic " + pn
+	case err != nil && hooked:
+		return nil, err.Error()
 	case err != nil:
 		return nil, "error " + err.Error()
 	case !hooked:
 		return nil, "nohook the HTTPServer hook was not called"
-	case status != http.StatusOK:
-		return nil, fmt.Sprintf("status %d: %s", status, c17Trunc(string(page)))
 	}
-	marker := []byte("stackViewer(")
-	i := bytes.LastIndex(page, marker)
-	if i < 0 {
-		return nil, "nomarker page has no stackViewer( call"
-	}
-	dec := json.NewDecoder(bytes.NewReader(page[i+len(marker):]))
-	var raw json.RawMessage
-	if err := dec.Decode(&raw); err != nil {
-		return nil, "badjson " + err.Error()
-	}
-	return raw, ""
+	return out, ""
 }
